@@ -191,6 +191,7 @@ func replayOps(path, out, observe string) {
 		fatal(err)
 	}
 	var evs []*h.Event
+	var labLines [][]byte
 	for _, line := range strings.Split(string(data), "\n") {
 		if strings.TrimSpace(line) == "" {
 			continue
@@ -199,7 +200,31 @@ func replayOps(path, out, observe string) {
 		if err != nil {
 			fatal(err)
 		}
+		if ev.Op == "Match" || ev.Op == "Apply" {
+			labLines = append(labLines, []byte(line))
+			continue
+		}
 		evs = append(evs, ev)
+	}
+	if len(labLines) > 0 {
+		fo, err := os.Create(out)
+		if err != nil {
+			fatal(err)
+		}
+		for _, l := range labLines {
+			c, err := h.ParseLabCase(l)
+			if err != nil {
+				fatal(err)
+			}
+			j, err := h.LabLine(c, h.RunLab(c))
+			if err != nil {
+				fatal(err)
+			}
+			fo.Write(j)
+			fo.Write([]byte("\n"))
+		}
+		fo.Close()
+		return
 	}
 	fo, err := os.Create(out)
 	if err != nil {
